@@ -552,6 +552,11 @@ def pool_f():
          ('table', 7, [(1, 'a', ('struct', [lbuf(120, 'u64', I('u32'), 'carray')])), (2, 'a', ('wrap', I('u8')))]),
          ('table', 7, [(1, 'a', ('struct', [vec(I('i16'))])), (2, 'a', I('u8'))]),
          ('table', 7, [(1, 'a', ('struct', [lbuf(70, 'i8', I('i16'))])), (2, 'a', I('u8'))])],
+        # ... and a non-integral sequence (ARRAY container): a partly filled logical buffer must size itself by the
+        # elements in use
+        [('table', 8, [(1, 'a', ('struct', [vec(STR)])), (2, 'a', I('u8'))]),
+         ('table', 8, [(1, 'a', ('struct', [lbuf(4, 'u8', STR)])), (2, 'a', I('u8'))]),
+         ('table', 8, [(1, 'a', ('struct', [lbuf(6, 'u32', STR, 'carray')])), (2, 'a', ('wrap', I('u8')))])],
     ]
     terms, pairs = [], []
     ranges = []
